@@ -420,13 +420,13 @@ func (l *zzLocal) resolve(id oid.ID) (phys *object.Object, si *object.SplitInfo,
 		}
 		return o, nil, nil
 	}
-	for _, o := range l.n.objs {
+	l.scan(func(o *object.Object, stored bool) {
 		if o.GetParentID() != id {
-			continue
+			return
 		}
-		if pi, err := iec.GetPartInfo(*o); err == nil && pi.RuleIndex >= 0 {
+		if pi, err := iec.GetPartInfo(*o); stored && err == nil && pi.RuleIndex >= 0 {
 			ecParts = append(ecParts, o)
-			continue
+			return
 		}
 		if si == nil {
 			si = object.NewSplitInfo()
@@ -446,8 +446,21 @@ func (l *zzLocal) resolve(id oid.ID) (phys *object.Object, si *object.SplitInfo,
 		if (isV1 && !isEmpty) || (!isV1 && !isLink) {
 			si.SetLastPart(o.GetID())
 		}
-	}
+	})
 	return nil, si, ecParts
+}
+
+// scan visits what the metabase knows: every stored object and, as header-only entries, the
+// finished parent headers they carry (the metabase indexes those recursively).
+func (l *zzLocal) scan(fn func(o *object.Object, stored bool)) {
+	for _, o := range l.n.objs {
+		fn(o, true)
+		depth := 0
+		for p := o.Parent(); p != nil && !p.GetID().IsZero() && depth < 2; p = p.Parent() {
+			fn(p, false)
+			depth++
+		}
+	}
 }
 
 func (l *zzLocal) head(id oid.ID, raw bool) (*object.Object, error) {
@@ -522,9 +535,44 @@ func (l *zzLocal) findPart(parent oid.ID, pi iec.PartInfo) *object.Object {
 	return nil
 }
 
+// sizeSplit tells what the node knows about parent as a size-split object of an EC container:
+// the stored link object, or the (header-only) last child learnt from the parts it stores.
+func (l *zzLocal) sizeSplit(parent oid.ID) (link *object.Object, si *object.SplitInfo) {
+	l.scan(func(o *object.Object, stored bool) {
+		if o.GetParentID() != parent || link != nil {
+			return
+		}
+		if pi, err := iec.GetPartInfo(*o); stored && err == nil && pi.RuleIndex >= 0 {
+			return
+		}
+		if o.Type() == object.TypeLink {
+			if stored {
+				link = o
+			}
+			return
+		}
+		if !o.GetFirstID().IsZero() {
+			if si == nil {
+				si = new(object.SplitInfo)
+			}
+			si.SetLastPart(o.GetID())
+		}
+	})
+	return link, si
+}
+
 func (l *zzLocal) GetECPart(_ context.Context, _ cid.ID, parent oid.ID, pi iec.PartInfo, _ bool) (object.Object, io.ReadCloser, error) {
 	o := l.findPart(parent, pi)
 	if o == nil {
+		link, si := l.sizeSplit(parent)
+		switch {
+		case link != nil:
+			// the shard answers with the link object itself
+			l.n.w.linkRead.Store(true)
+			return *zzHdr(link), &zzReader{data: link.Payload()}, nil
+		case si != nil:
+			return object.Object{}, nil, fmt.Errorf("resolve part ID in metabase: %w", object.NewSplitInfoError(si))
+		}
 		return object.Object{}, nil, apistatus.ErrObjectNotFound
 	}
 	return *zzHdr(o), &zzReader{data: o.Payload()}, nil
@@ -541,6 +589,15 @@ func (l *zzLocal) HeadECPart(_ context.Context, _ cid.ID, parent oid.ID, pi iec.
 func (l *zzLocal) GetECPartRange(_ context.Context, _ cid.ID, parent oid.ID, pi iec.PartInfo, rng blobcommon.PayloadRange, readHeader bool) (*object.Object, uint64, io.ReadCloser, error) {
 	o := l.findPart(parent, pi)
 	if o == nil {
+		if link, si := l.sizeSplit(parent); link != nil || si != nil {
+			if si == nil {
+				si = new(object.SplitInfo)
+			}
+			if link != nil {
+				si.SetLink(link.GetID())
+			}
+			return nil, 0, nil, fmt.Errorf("resolve part ID and payload len in metabase: %w", object.NewSplitInfoError(si))
+		}
 		return nil, 0, nil, apistatus.ErrObjectNotFound
 	}
 	pld := o.Payload()
@@ -859,6 +916,35 @@ type zzLayout struct {
 	children []*object.Object // split: payload-carrying children in order; whole: the object; ec: parts by index
 	link     *object.Object   // split only
 	bounds   []uint64         // interior boundaries of the payload (child / EC data part starts)
+	// "ecsplit" (size-split object of an EC container): children are the logical children (never
+	// stored), parts[j] the stored EC parts of child j, link the stored link object
+	parts [][]*object.Object
+}
+
+// zzBuildECSplit forms a size-split object of an EC container: the v2 chain, every child
+// encoded into EC parts that carry the child's header as their parent, the link stored as is.
+func zzBuildECSplit(w *zzWorld, payload []byte, limit uint64, rule iec.Rule) *zzLayout {
+	l := zzBuildV2(w, payload, limit)
+	if l.kind != "v2" {
+		return zzBuildEC(w, payload, rule)
+	}
+	l.kind = "ecsplit"
+	for _, c := range l.children {
+		enc, _, err := iec.Encode(rule, c.Payload())
+		if err != nil {
+			w.r.Failf("infra", "build", "EC encode: %v", err)
+		}
+		var ps []*object.Object
+		for i := range enc {
+			po, err := iec.FormObjectForECPart(zzSigner(), *zzHdr(c), enc[i], iec.PartInfo{RuleIndex: 0, Index: i})
+			if err != nil {
+				w.r.Failf("infra", "build", "EC part: %v", err)
+			}
+			ps = append(ps, &po)
+		}
+		l.parts = append(l.parts, ps)
+	}
+	return l
 }
 
 func zzBuildWhole(w *zzWorld, payload []byte) *zzLayout {
@@ -1077,6 +1163,21 @@ func (l *zzLayout) computeBounds(rule *iec.Rule) {
 		for _, c := range l.children[:len(l.children)-1] {
 			off += c.PayloadSize()
 			l.bounds = append(l.bounds, off)
+		}
+	case "ecsplit":
+		var off uint64
+		for j, c := range l.children {
+			if pl := uint64(len(l.parts[j][0].Payload())); pl > 0 {
+				for i := 1; i < int(rule.DataPartNum); i++ {
+					if b := pl * uint64(i); b < c.PayloadSize() {
+						l.bounds = append(l.bounds, off+b)
+					}
+				}
+			}
+			off += c.PayloadSize()
+			if j < len(l.children)-1 {
+				l.bounds = append(l.bounds, off)
+			}
 		}
 	case "ec":
 		if len(l.payload) == 0 {
